@@ -12,6 +12,7 @@ import (
 	"net/url"
 	"strconv"
 	"sync"
+	"sync/atomic"
 	"time"
 
 	"github.com/rs/dnscache"
@@ -296,7 +297,7 @@ func ConnectTo(addrMap map[string][]string) func(*Attacker) {
 
 		type roundRobin struct {
 			addrs []string
-			n     int
+			n     uint64
 		}
 
 		connectTo := make(map[string]*roundRobin, len(addrMap))
@@ -306,8 +307,8 @@ func ConnectTo(addrMap map[string][]string) func(*Attacker) {
 
 		tr.DialContext = func(ctx context.Context, network, addr string) (net.Conn, error) {
 			if cm, ok := connectTo[addr]; ok {
-				cm.n = (cm.n + 1) % len(cm.addrs)
-				addr = cm.addrs[cm.n]
+				// Dials happen concurrently, rotate atomically.
+				addr = cm.addrs[atomic.AddUint64(&cm.n, 1)%uint64(len(cm.addrs))]
 			}
 			return dial(ctx, network, addr)
 		}
